@@ -1,10 +1,10 @@
 # C13 -- cross-thread queue: no loss, duplication, reordering or missed wake-up (bounded schedules, own sequentialisation)
-UNITS = {'q': dict(src='harness/w_c13.cc', mode='inl', roots=['vp_new', 'vp_push', 'vp_drain', 'vp_linked'], resumable=['vp_push', 'vp_drain'])}
+UNITS = {'q': dict(src='harness/w_c13.cc', mode='inl', cflags=['-DPISTACHE_VERIF_HOOKS'], roots=['vp_new', 'vp_push', 'vp_drain', 'vp_linked'], resumable=['vp_push', 'vp_drain'])}
 def inst(p, m, k, tiers, witness=True, opts=None, timeout=1500):
     return dict(name='queue_p%d_m%d_k%d' % (p, m, k), units=['q'], include_units=True, file='c13_queue.c', defs={'NPROD': p, 'NPUSH': m, 'KSTEPS': k, 'VP_DISPATCH_ru8p_u8p': None},
                 unwind=3, hunwind=max(k + 1, 8), tiers=tiers, witness=witness, timeout=timeout, memgb=16, opts=opts or [],
                 bound='%d producer(s) x %d push(es), one consumer, every schedule of <= %d steps (one shared access per step, idle steps allowed)' % (p, m, k),
-                replay=dict(program='harness/replay_c13.cc', real=['/repo/src/common/os.cc'], args=['NPROD', 'NPUSH']),
+                replay=dict(program='harness/replay_c13.cc', cflags=['-DPISTACHE_VERIF_HOOKS'], real=['/repo/src/common/os.cc'], args=['NPROD', 'NPUSH']),
                 desc='at every quiescent end state: each item popped at most once, per-producer FIFO, popped + queued == pushed, queued item => notification pending')
 HARNESSES = [
   inst(1, 1, 9, ('quick', 'thorough')),
